@@ -68,7 +68,7 @@ class State:
                 return
             ctx.count("insitu_calls_checked")
         # (i) same score with and without the gradient
-        v2 = orig(gem, P.copy(), A, False)
+        v2 = orig(gem, np.array(P, copy=True), A, False)      # same values, same memory layout as the observed call
         ctx.count("same_score_checked")
         va, vb = float(np.asarray(value).reshape(-1)[0]), float(np.asarray(v2).reshape(-1)[0])
         if not (abs(va - vb) <= 1e-12 * max(1.0, abs(va)) or (va != va and vb != vb)):
@@ -84,25 +84,29 @@ class State:
             if np.any(g[clipped] != 0) or not np.all(np.isfinite(g)):
                 ctx.violation("clipped-zero-grad", "clipped-entry-nonzero-grad/" + mech,
                               observed={"grad_on_clipped": g[clipped][:8], "P": P}, expected="exact zeros")
+        N, K = P.shape
+        good_rows = np.arange(N)
         if not _gem.interior(P, eps):
             # Points with entries below epsilon (or above 1-epsilon) are still interior points of the simplex as long as
-            # every entry is positive: the returned score is flat in the clipped entries and smooth in the others, so its
-            # derivative through the soft-max parameterisation is still defined - unless an entry sits at a clipping
-            # boundary (a kink), or is exactly 0 (no logit).
+            # every entry is positive: the returned score is flat in the clipped entries and smooth in the others.  The
+            # derivative is taken row by row (one row moves through its soft-max parameterisation, the others stay
+            # where they are), so only the moving row has to stay clear of the clipping boundaries (kinks) and of
+            # exact zeros (no logit); a direction moves all the rows that qualify at once.
             rows_ok = P.ndim == 2 and P.size > 0 and bool(np.all(np.abs(P.sum(1) - 1.0) <= 1e-9))
-            positive = bool(np.all(P > 0))
-            near_kink = bool(np.any((P > eps / 4) & (P < 4 * eps))) or bool(np.any((P > 1 - 4 * eps) & (P < 1 - eps / 4)))
-            if not (rows_ok and positive) or near_kink:
+            bad = ~np.all(P > 0, axis=1) | np.any(((P > eps / 4) & (P < 4 * eps)) | ((P > 1 - 4 * eps) & (P < 1 - eps / 4)), axis=1)
+            good_rows = np.flatnonzero(~bad)
+            if not rows_ok or len(good_rows) == 0:
                 ctx.count("not_interior_no_derivative_check")
                 return
             ctx.count("partially_clipped_derivative_checks")
+            if eps > 1e-11:
+                ctx.count("partially_clipped_checks_with_user_epsilon")
         if not np.all(np.isfinite(g)):
             ctx.violation("finite-grad", "nonfinite-grad-interior/" + mech, observed={"P": P, "grad": g},
                           expected="finite")
             return
         # (iv) numeric-derivative oracle
-        N, K = P.shape
-        L = np.log(P)
+        L = np.log(np.where(P > 0, P, 1.0))
         G = P * (g - (P * g).sum(1, keepdims=True))          # d score / d logits implied by the returned gradient
         gscale = float(np.max(np.abs(G))) if G.size else 0.0
 
@@ -114,12 +118,14 @@ class State:
         proj_floor = 1e4 * numdiff.EPS * float(np.max(np.abs(P * g)))
         rng = self.rng
         ncmp = 0
-        coords = [(int(rng.integers(0, N)), int(rng.integers(0, K))) for _ in range(self.ncoords)]
+        coords = [(int(good_rows[int(rng.integers(0, len(good_rows)))]), int(rng.integers(0, K))) for _ in range(self.ncoords)]
         for (i, k) in coords:
             def f(t, i=i, k=k):
-                Lt = L.copy()
-                Lt[i, k] += t
-                return F(gen.softmax(Lt))
+                Pt = P.copy()
+                li = L[i:i + 1].copy()
+                li[0, k] += t
+                Pt[i] = gen.softmax(li)[0]
+                return F(Pt)
             d = numdiff.derivative(f, L[i, k], f_abs_err=ferr)
             if d is None:
                 ctx.count("kink_skipped")
@@ -142,9 +148,10 @@ class State:
                 break
         gc = g - g.mean(1, keepdims=True)
         for _ in range(self.ndirs):
-            Z = rng.normal(size=P.shape)
+            Z = np.zeros(P.shape)
+            Z[good_rows] = rng.normal(size=(len(good_rows), K))
             V = P * (Z - (P * Z).sum(1, keepdims=True))
-            V /= max(1.0, float(np.max(np.abs(V) / P))) * 2   # |tV| <= t*P/2: P + tV stays positive for |t| < 1
+            V /= max(1.0, float(np.max(np.abs(V[good_rows]) / P[good_rows]))) * 2   # |tV| <= t*P/2: P + tV stays positive for |t| < 1
             # remove the round-off of the projection so that the rows of V sum to zero as exactly as doubles allow
             V[np.arange(N), P.argmax(1)] -= V.sum(1)
 
@@ -204,13 +211,22 @@ def run_case(case, ctx, st):
             ctx.case = {"kind": "direct", "seed": case["seed"], "i0": idx, "i1": idx + 1, "tier": case.get("tier"),
                         "info": info}
             gem(P, A, return_grad=True)
+            if idx % 3 == 0 and isinstance(info["gemini"], dict):
+                # the same object family with a clipping bound a user may well choose (1e-4 .. 0.03): many entries are
+                # clipped, the others are not - the derivative of the returned score is still what the gradient must be
+                d2 = dict(info["gemini"], epsilon=float(10 ** st.rng.uniform(-4, -1.5)))
+                ctx.case = {"kind": "direct", "seed": case["seed"], "i0": idx, "i1": idx + 1, "tier": case.get("tier"),
+                            "info": dict(info, gemini=d2, second_call="user-epsilon")}
+                ctx.count("user_epsilon_calls")
+                gen.gemini_from_desc(d2)(P, A, return_grad=True)
             if idx % 7 == 0:
                 # exact zeros / one-hot rows: clipped entries must get zero gradient
                 Q = np.zeros_like(P)
                 Q[np.arange(len(P)), P.argmax(1)] = 1.0
                 if len(P) > 1:
                     Q[0] = P[0]
-                gem.evaluate(Q, A, return_grad=True)
+                # in Fortran order every other time: clipped entries get zero gradient whatever the memory layout
+                gem.evaluate(np.asfortranarray(Q) if idx % 14 == 0 else Q, A, return_grad=True)
     else:
         rng = gen.rng_for(case["seed"], ID, "fit", case["i"])
         st.rng = gen.rng_for(case["seed"], ID, "monfit", case["i"])
